@@ -475,6 +475,41 @@ def run(ctx):
     okrun = any(U.like(s, 'self._current_pipeline = L_p', b_) for s in walk_no_nested(arun.node) if isinstance(s, ast.Assign)) \
         and any(U.like(y, 'yield from L_p.process()', dict(b_)) for y in walk_no_nested(arun.node) if isinstance(y, ast.YieldFrom))
     ck.expect(okrun, 'C13-D7', arun.qual, 'current pipeline recorded before it is processed', 'Application.run wiring changed', arun.loc())
+    # a failure that ends a pipeline reaches the exit status on every path through the handler (an `expected` error is still an error)
+    acfg = ctx.cfg(arun)
+    for t in [t for t in walk_no_nested(arun.node) if isinstance(t, ast.Try) and any(U.attr_name(c) == 'process' for b in t.body for c in U.calls(b))]:
+        for h in t.handlers:
+            first = [n for n in acfg.nodes if n.stmt is h.body[0] and n.kind != 'join']
+            upd = [n for n in acfg.stmt_nodes() if any(U.attr_name(c) == '_update_exit_code_from_error' for c in F.node_calls(n))]
+            inside = {id(x) for b in h.body for x in ast.walk(b)}
+            leaves = lambda x: x.stmt is None or id(x.stmt) not in inside
+            reraises = lambda x: x.kind in ('raise',) or (x.stmt is not None and isinstance(x.stmt, ast.Raise))
+            p = acfg.find_path(first[0], leaves, edge_ok=F.normal, stop=lambda x: x in upd or reraises(x)) if first else ()
+            ck.expect(first and p is None, 'C13-D5', arun.qual, 'every path through the failure handler records the exit status',
+                      'a failure that ends a pipeline can pass the handler without _update_exit_code_from_error: the run stops early and '
+                      'reports success', arun.loc(h), path=describe_path(p) if p else None)
+    # the pipelines that a stop request lets the application skip: `X.skippable = True` belongs to the pipeline built just before it
+    bp = repo.func('wpull.application.builder:Builder._build_pipelines')
+    body = bp.node.body
+    n_skip = 0
+    for i, st in enumerate(body):
+        if isinstance(st, ast.Assign) and len(st.targets) == 1 and isinstance(st.targets[0], ast.Attribute) and st.targets[0].attr == 'skippable' \
+                and isinstance(st.targets[0].value, ast.Name):
+            n_skip += 1
+            prev = body[i - 1] if i else None
+            okprev = isinstance(prev, ast.Assign) and len(prev.targets) == 1 and isinstance(prev.targets[0], ast.Name) \
+                and prev.targets[0].id == st.targets[0].value.id and isinstance(prev.value, ast.Call) and norm_text(prev.value.func).endswith('Pipeline')
+            ck.expect(okprev, 'C13-D7', bp.qual, '%s.skippable set right after %s is built' % (st.targets[0].value.id, st.targets[0].value.id),
+                      'the skippable mark is put on `%s`, not on the pipeline constructed just before it: a pipeline meant to be skipped after a '
+                      'stop request (download clean-up, link conversion) still runs, or one that must run is skipped' % st.targets[0].value.id, bp.loc(st))
+    ck.expect(n_skip >= 2, 'C13-D7', bp.qual, 'skippable pipelines marked (%d)' % n_skip, 'fewer than two pipelines are marked skippable', bp.loc())
+    # exceptions the producer wrapper and Application.run notice are `Exception`s: a repository exception deriving from BaseException
+    # passes both handlers, the producer dies without stop() and process() never returns
+    for ci in repo.classes.values():
+        if ci.module.name.startswith('wpull.') and not ci.module.name.startswith('wpull.thirdparty') and 'BaseException' in repo.external_bases(ci):
+            ck.bad('C13-D5', ci.qual, 'class %s(BaseException)' % ci.name,
+                   'raised by a hook or an item source this exception is seen neither by `except Exception` in Pipeline._run_producer_wrapper '
+                   '(no stop(), the workers wait for ever) nor by Application.run (no exit status)', ci.module.path)
 
     _d8_parking(ctx)
 
